@@ -3,7 +3,9 @@
 Oracle (real library only).  A valid document T (props/_docgen.py) is parsed through every entry point
   str      Gfa("\\n".join(lines))            str_nl   the same text with the final newline a file has
   list     Gfa(lines)                        file_lf / file_crlf   Gfa.from_file of a temp file (LF / CRLF)
-at every validation level 0..3, with the version given explicitly and left to be detected.  The written text
+at every validation level 0..3, with the version given explicitly and left to be detected (the string entry
+point for all 8 settings, each other entry point for 2 of them, rotating with the case; "rot": "all" in a case runs
+the full product).  The written text
 str(g) is re-tokenised by an independent tokeniser (_docgen.tokenise) and compared with the re-tokenised input
 as multisets of records: same record type, same positional fields, same set of (tag, datatype, value) with values
 compared semantically (i by value, f by float(), J by json.loads, B by element kind+values, H/Z/A verbatim,
@@ -43,13 +45,13 @@ ENTRIES = ["str", "str_nl", "list", "file_lf", "file_crlf"]
 
 
 def budget(tier):
-    return 1200 if tier == "quick" else 40000
+    return 1200 if tier == "quick" else 15000
 
 
 def gen_case(rng, tier, i):
     ml = rng.choice([4, 6, 8, 12, 12]) if tier == "quick" else rng.choice([8, 12, 20, 30, 40])
     d = D.gen_doc(rng, max_lines=ml, same_id_groups=False)
-    return {"version": d["version"], "lines": d["lines"], "features": d["features"]}
+    return {"version": d["version"], "lines": d["lines"], "features": d["features"], "rot": rng.randrange(4)}
 
 
 def nontrivial(case):
@@ -140,11 +142,19 @@ def oracle(case):
         cin = D.doc_keys(lines, version)
     except D.Unparsable as e:  # generator bug, never a library failure
         return ["GENERATOR-BUG: %s" % e]
+    combo = 0
     for ver in (version, None):
         for vlevel in (1, 0, 2, 3):
             outs = {}
             str_failed = False
-            for entry in ENTRIES:
+            # the string entry point always; the other four rotate over the 8 (version, level) settings, so that
+            # every case sees each of them twice (case["rot"] shifts the assignment; "all" runs the full product)
+            if case.get("rot") == "all":
+                entries = ENTRIES
+            else:
+                entries = ["str", ENTRIES[1 + (combo + case.get("rot", 0)) % 4]]
+            combo += 1
+            for entry in entries:
                 cfg = "entry=%s vlevel=%d version=%s" % (entry, vlevel, ver)
                 try:
                     g = _build(gfapy, entry, lines, vlevel, ver)
@@ -157,7 +167,7 @@ def oracle(case):
                     if isinstance(e, gfapy.Error):
                         add("rejected%s[%s]: %s" % (sfx, e.__class__.__name__, _first(e)), cfg)
                     else:
-                        add("rejected%s[%s:%s]: foreign exception %s" % (sfx, e.__class__.__name__, _slug(e), _first(e)),
+                        add("rejected%s[%s/%s]: foreign exception %s" % (sfx, e.__class__.__name__, _slug(e), _first(e)),
                             cfg)
                     continue
                 try:
